@@ -23,7 +23,7 @@ EXPLANATION = ('Dominance rules with strength over the CFG of lz4::decompress, r
                'decremented after every copy, the source cursor is tested before every read of the sequence header, the constants are '
                'coherent, and the wrapper neither skips a result check nor rejects more than the decoder contract.  That the bytes '
                'produced equal a reference decoder\'s and that compressed fonts shape identically are run-time facts, not decided.')
-FLOORS = {'COPYGUARD': 11, 'BOOKKEEPING': 2, 'SEQGUARD': 3, 'LZCONST': 1, 'DECOMPRESS': 6}
+FLOORS = {'COPYGUARD': 11, 'BOOKKEEPING': 2, 'SEQGUARD': 3, 'LZCONST': 1, 'DECOMPRESS': 6, 'TABLETS': 1}
 
 import re
 
@@ -573,3 +573,5 @@ def run(run):
     seqguard(run, fx)
     lzconst(run, fx)
     decompress(run, fx)
+    from . import c16
+    c16.flagpair(run, fx)        # the compressed original goes back to the application, not to free(): flag and pointer change together (shared with C16)
